@@ -176,7 +176,8 @@ def normalise(qname, fnode, table):
     Returns {current name: reference name} for what was renamed."""
     if qname not in table:
         return {}
-    ref = table[qname]
+    ref = table[qname].get('locals', {})
+    _mirror_back(fnode, set(table[qname].get('eq', ())))
     cur = signatures(fnode)
     by_sig = {}
     for nm, sg in cur.items():
@@ -200,6 +201,34 @@ def normalise(qname, fnode, table):
                 x.id = ren[x.id]
     _inline_new_test_values(fnode, set(ref))
     return ren
+
+
+def eq_texts(fnode):
+    """Texts of the ==/!= comparisons of a function (single operator)."""
+    out = set()
+    for x in ast.walk(fnode):
+        if isinstance(x, ast.Compare) and len(x.ops) == 1 and \
+                isinstance(x.ops[0], (ast.Eq, ast.NotEq)):
+            out.add(' '.join(ast.unparse(x).split()))
+    return out
+
+
+def _mirror_back(fnode, ref_eq):
+    """`b == a` where the reference writes `a == b` (and has no `b == a`)
+    is put back in the reference's operand order: equality is symmetric,
+    rules quote comparisons in the order the reference wrote them."""
+    if not ref_eq:
+        return
+    for x in ast.walk(fnode):
+        if isinstance(x, ast.Compare) and len(x.ops) == 1 and \
+                isinstance(x.ops[0], (ast.Eq, ast.NotEq)):
+            t = ' '.join(ast.unparse(x).split())
+            if t in ref_eq:
+                continue
+            m = ast.Compare(left=x.comparators[0], ops=x.ops,
+                            comparators=[x.left])
+            if ' '.join(ast.unparse(m).split()) in ref_eq:
+                x.left, x.comparators = x.comparators[0], [x.left]
 
 
 def _inline_new_test_values(fnode, ref_names):
